@@ -466,16 +466,19 @@ def inlineWalk (cpos cline : Int) : Bool → Nat → List Node → Bool
     else if n.startLine == cline || n.endLine == cline then inlineWalk cpos cline true n.size r
     else inlineWalk cpos cline found 0 r
 
+/-- the declaration before the one found for the comment ends on the comment's line
+    (the comment trails the last token of that declaration) -/
+def prevEndsOnLine (f : File) (cm : Comment) : Bool :=
+  match declIndex f.decls cm.pos with
+  | 0 => false
+  | i + 1 => match f.decls[i]? with
+    | some d => d.endLine == cm.line
+    | none => false
+
 /-- `findInlineNode`: the marker range if the comment trails code -/
 def findInline (f : File) (cm : Comment) : Option (Int × Int) :=
-  let idx := declIndex f.decls cm.pos
-  let prevEndsHere := match idx with
-    | 0 => false
-    | i + 1 => match f.decls[i]? with
-      | some d => d.endLine == cm.line
-      | none => false
-  if prevEndsHere then some (cm.lineStart, cm.stop)
-  else match f.decls[idx]? with
+  if prevEndsOnLine f cm then some (cm.lineStart, cm.stop)
+  else match f.decls[declIndex f.decls cm.pos]? with
     | none => none
     | some d =>
       if cm.pos < d.pos then none
@@ -499,18 +502,20 @@ def findNext (f : File) (cpos : Int) : Int :=
 
 def codeString (b : Bytes) : String := String.ofList (b.map fun x => Char.ofNat x.toNat)
 
+/-- the range an `@ignore` comment covers -/
+def scopeOf (f : File) (cm : Comment) : Int × Int :=
+  if cm.pos < f.packagePos then (cm.pos, f.fileEnd)
+  else match findInline f cm with
+    | some r => r
+    | none =>
+      let e := findNext f cm.pos
+      (cm.pos, if e == 0 then cm.stop else e)
+
 /-- the marker one comment contributes -/
 def markerOf (f : File) (cm : Comment) : Option Marker :=
   if !prefilterIgnore cm.text then none else
-  let range : Int × Int :=
-    if cm.pos < f.packagePos then (cm.pos, f.fileEnd)
-    else match findInline f cm with
-      | some r => r
-      | none =>
-        let e := findNext f cm.pos
-        (cm.pos, if e == 0 then cm.stop else e)
   match parseIgnore cm.text with
-  | some codes => some ⟨codes.map codeString, range.1, range.2⟩
+  | some codes => some ⟨codes.map codeString, (scopeOf f cm).1, (scopeOf f cm).2⟩
   | none => none
 
 def ignoreOps (cfg : Cfg) (p : Pkg) : List Op :=
